@@ -22,7 +22,7 @@ WaitLong == nw < MaxW /\ \E m \in {"wait", "timed"} :
               /\ hist' = Append(hist, [op |-> "wait", p |-> nw + 1, mode |-> m, to |-> 3600000, real |-> "long"])
 WaitShort == nw < MaxW /\ nw' = nw + 1 /\ short' = short \cup {nw + 1} /\ UNCHANGED parked
               /\ hist' = Append(hist, [op |-> "wait", p |-> nw + 1, mode |-> "timed", to |-> 1, real |-> "short"])
-Tick == \E d \in {1, 250} : (Len(hist) = 0 \/ hist[Len(hist)].op # "tick") /\ UNCHANGED <<parked, short, nw>>
+Tick == \E d \in {1, 250} : (IF Len(hist) = 0 THEN TRUE ELSE hist[Len(hist)].op # "tick") /\ UNCHANGED <<parked, short, nw>>
               /\ hist' = Append(hist, [op |-> "tick", d |-> d])
 Wake == parked > 0 /\ short = {} /\ parked' = parked - 1 /\ UNCHANGED <<short, nw>> /\ hist' = Append(hist, [op |-> "wake"])
 Expire == \E p \in short : short' = short \ {p} /\ UNCHANGED <<parked, nw>> /\ hist' = Append(hist, [op |-> "expire", p |-> p])
